@@ -945,6 +945,9 @@ def _try_propagate(fnode, blk, i, name):
             if isinstance(n, ast.Name) and isinstance(n.ctx, (ast.Store, ast.Del)) and n.id in deps:
                 return False
             if isinstance(n, (ast.Subscript, ast.Attribute)) and isinstance(n.ctx, (ast.Store, ast.Del)):
+                if s is rest[last] and isinstance(s, ast.Assign) and all(any(id(l) == id(x) for x in ast.walk(s.value))
+                                                                        for l in loads if any(id(l) == id(x) for x in ast.walk(s))):
+                    continue        # the use is on the right-hand side of this very store: evaluated before it
                 b = n
                 while isinstance(b, (ast.Subscript, ast.Attribute)):
                     if isinstance(b, ast.Attribute) and ast.unparse(b) in dep_attrs:
